@@ -47,6 +47,14 @@ func parsesFull(src string) error {
 	return err
 }
 
+var c07HostileHeaders = []string{
+	"/*\nCopyright notice. The code exported from this\npackage is covered by the licence\nimport (\nfunc init() {\n*/\n\n",
+	"// Copyright\n\n/*\nPackage p does things; see\npackage main\nfor more.\n*/\n",
+	"/* leading */ ",
+	"//go:build linux\n\n/*\n\tpackage q\n*/\n\n// Package p is documented like this:\n//\n//\tpackage p\n//\n// end.\n",
+	"/*\n * Licence\n */\n\n// +build !windows\n\n/* package\npackage\n*/\n",
+}
+
 func init() {
 	core.Register(&core.Prop{
 		ID:    "C07",
@@ -131,7 +139,24 @@ func runC07(ctx *core.Ctx, idx int) *core.Result {
 		}
 	}
 	mode := []string{"inplace", "print", "diff", "api"}[r.Intn(4)]
+	hostile := false
+	if idx%3 == 2 && r.Intn(2) == 0 {
+		// text that looks like Go clauses where it is not code: comments in front of the package clause and raw
+		// strings behind it with lines that begin with "package", "import (", "func"; whatever is done to the
+		// printed text after it was checked must still leave something that parses
+		hostile = true
+		hdr := c07HostileHeaders[r.Intn(len(c07HostileHeaders))]
+		files[0].src = hdr + files[0].src + "\nvar rawDoc = `\npackage inside\n\nimport (\n\t\"x\"\n`\n"
+		if !gen.Parses(files[0].src) {
+			panic("c07: hostile header does not parse:\n" + files[0].src)
+		}
+		if mode == "print" {
+			files = files[:1] // the printed text is not split into files
+		}
+		res.Ob("hostile-header-files", 1)
+	}
 	if idx%7 == 6 {
+		hostile = false
 		// a target whose name is so long that no temporary file can be created next to it, and a rewrite that
 		// makes it shorter: whatever the write path falls back to, what ends up on disk has to parse
 		pt, class, mode = "@@\nvar x expression\n@@\n-shrinkThisLongCall(x)\n+s(x)\n", "long-name-shrinking-rewrite", "inplace"
@@ -255,6 +280,9 @@ func runC07(ctx *core.Ctx, idx int) *core.Result {
 	case "print":
 		// stdout is a concatenation of whole files; split at "package " clauses at line starts
 		parts := splitPrinted(stdout)
+		if hostile {
+			parts = []string{stdout}
+		}
 		for i, p := range parts {
 			emitted[fmt.Sprintf("printed-%d", i)] = p
 		}
